@@ -476,18 +476,139 @@ func c09Mutations(base *Plan, sample *Chooser, keep float64) []*Plan {
 	return out
 }
 
+// c09Boundary lists the cuts that land on or next to a frame boundary of one scenario: inside an envelope prefix, right
+// after it (the announced payload never starts), one byte into the payload and one byte before its end, in both
+// directions. Off-by-one and end-of-input mistakes live at these offsets, so the quick tier draws half of its faults here.
+func c09Boundary(base *Plan) []*Plan {
+	var out []*Plan
+	add := func(note string, edit func(p *Plan)) {
+		p := base.clone()
+		p.Note = note
+		edit(p)
+		out = append(out, p)
+	}
+	near := func(prefixes, bounds []int, total int) []int {
+		seen := map[int]bool{}
+		var offs []int
+		put := func(o int) {
+			if o > 0 && o < total && !seen[o] {
+				seen[o] = true
+				offs = append(offs, o)
+			}
+		}
+		for i, e := range bounds {
+			s0 := 0
+			if i < len(prefixes) {
+				s0 = prefixes[i]
+			} else if i > 0 {
+				s0 = bounds[i-1]
+			}
+			for _, o := range []int{s0 + 1, s0 + 4, s0 + 5, s0 + 6, e - 1} {
+				if o <= e {
+					put(o)
+				}
+			}
+		}
+		put(1)
+		put(total - 1)
+		return offs
+	}
+	rc := &base.RPCs[0]
+	body, _, st := effectiveRequestBody(&base.Config, rc)
+	if st.Rejected != "" {
+		return nil
+	}
+	var starts []int
+	if enveloped(rc.Client.Form) {
+		s0 := 0
+		for _, e := range st.rendered.Bounds {
+			starts = append(starts, s0)
+			s0 = e
+		}
+		for _, off := range near(starts, st.rendered.Bounds, len(body)) {
+			off := off
+			add("req-cut-eof", func(p *Plan) { p.RPCs[0].Client.Faults = []Fault{{Kind: "cut-eof", At: off}} })
+			add("req-cut-err", func(p *Plan) { p.RPCs[0].Client.Faults = []Fault{{Kind: "cut-err", At: off}} })
+		}
+	} else {
+		for _, off := range near(nil, nil, len(body)) {
+			off := off
+			add("req-cut-eof", func(p *Plan) { p.RPCs[0].Client.Faults = []Fault{{Kind: "cut-eof", At: off}} })
+			add("req-cut-err", func(p *Plan) { p.RPCs[0].Client.Faults = []Fault{{Kind: "cut-err", At: off}} })
+		}
+	}
+	// flag bytes that mean something in one of the protocols (end-of-stream, trailers) or sit next to the legal ones, and
+	// the smallest length lies
+	hotFlags := []int{2, 3, 4, 0x80, 0x81, 0x82, 0xff}
+	if enveloped(rc.Client.Form) {
+		for fi := range rc.Client.Msgs {
+			fi := fi
+			for _, fl := range hotFlags {
+				fl := fl
+				add("req-flag", func(p *Plan) { f := fl; p.RPCs[0].Client.Msgs[fi].Flags = &f })
+			}
+			for _, d := range []int{1, -1} {
+				d := d
+				add("req-len", func(p *Plan) { p.RPCs[0].Client.Msgs[fi].LenDelta = d })
+			}
+		}
+	}
+	dry := Run(base)
+	if len(dry.RPCs) == 1 && len(dry.RPCs[0].Backend) == 1 {
+		d := dry.RPCs[0]
+		if d.Backend[0].Stream {
+			for mi := range rc.Backend.Resp.Msgs {
+				mi := mi
+				for _, fl := range hotFlags {
+					fl := fl
+					add("resp-flag", func(p *Plan) { f := fl; p.RPCs[0].Backend.Resp.Msgs[mi].Flags = &f })
+				}
+				for _, dl := range []int{1, -1} {
+					dl := dl
+					add("resp-len", func(p *Plan) { p.RPCs[0].Backend.Resp.Msgs[mi].LenDelta = dl })
+				}
+			}
+		}
+		for _, off := range near(d.respPrefixes, d.respBounds, d.respLen) {
+			off := off
+			add("resp-cut", func(p *Plan) { p.RPCs[0].Backend.Resp.CutAt = off })
+		}
+		add("resp-omit-end", func(p *Plan) { p.RPCs[0].Backend.Resp.OmitEnd = true })
+	}
+	return out
+}
+
+var c09Memo struct {
+	corpus   []*Plan
+	boundary map[int][]*Plan
+}
+
 func init() {
 	register(&Check{
 		ID:    "C09",
 		Level: "fault_enumeration",
 		Rule: "a corpus of small scenarios (4 client forms x method shapes x 3 target protocols x 5 codec/compression variants = every adapter path, 1-2 messages each way); on each, single faults are enumerated: " +
 			"every byte offset at which the request body can end (clean EOF and connection error), every offset at which the backend can stop writing, missing end of stream, every other value 0..255 of every envelope flag byte in both directions, " +
-			"every single-bit flip of every compressed payload, frame lengths +-1/+3/huge, Content-Length +-1/+5. thorough enumerates all of them; quick draws a seeded sample of the same space. " +
+			"every single-bit flip of every compressed payload, frame lengths +-1/+3/huge, Content-Length +-1/+5. thorough enumerates all of them; quick draws a seeded sample of the same space, half of it from the cuts next to a frame boundary, the flag values that carry meaning in some protocol, and lengths off by one. " +
 			"oracle: an independent strict parser decides whether the faulted stream is malformed; if so the client must see a non-OK outcome, the backend's completely decoded messages must be a prefix of the valid ones, " +
 			"and the response must be terminated and well-formed; no hang (quiescence). distinct = (scenario class, fault kind, schedule hash); non-trivial = a fault was placed and the run executed",
 		Gen: func(c *Chooser, tier string) *Plan {
-			corpus := c09Corpus()
-			base := corpus[c.Intn(len(corpus))]
+			if c09Memo.corpus == nil {
+				c09Memo.corpus, c09Memo.boundary = c09Corpus(), map[int][]*Plan{}
+			}
+			corpus := c09Memo.corpus
+			bi := c.Intn(len(corpus))
+			base := corpus[bi]
+			if c.Bool() {
+				bs, ok := c09Memo.boundary[bi]
+				if !ok {
+					bs = c09Boundary(base)
+					c09Memo.boundary[bi] = bs
+				}
+				if len(bs) > 0 {
+					return bs[c.Intn(len(bs))].clone()
+				}
+			}
 			muts := c09Mutations(base, c, 0.004)
 			if len(muts) == 0 {
 				return nil
